@@ -331,3 +331,79 @@ Proof.
     + intros fd Hfd. rewrite forallb_forall in C. destruct (wf_field _ _ Ws Hfd) as [W1 W2].
       apply field_agree; auto.
 Qed.
+
+(** * Corollaries for C09 *)
+Lemma agree_dump SS : wf_schemas SS = true ->
+  forall fuel t j, wf_ty t = true -> conforms SS fuel t j = true ->
+  fallback_validate SS fuel t j = Some (ref_validate SS fuel t j)
+  /\ option_map (dump_by_alias SS) (fallback_validate SS fuel t j) = Some (dump_by_alias SS (ref_validate SS fuel t j)).
+Proof.
+  intros WF fuel t j W C. unfold fallback_validate. rewrite (agree_gen SS WF fuel t j W C). auto.
+Qed.
+
+Definition t_id : ty := TUnion [TInt; TStr].
+
+Lemma id_kept SS : wf_schemas SS = true ->
+  forall fuel j, conforms SS fuel t_id j = true \/ conforms SS fuel (TOpt t_id) j = true ->
+  (fallback_validate SS fuel t_id j = Some (VJ j) \/ fallback_validate SS fuel (TOpt t_id) j = Some (VJ j)).
+Proof.
+  intros WF fuel j [C|C].
+  - left. unfold fallback_validate. rewrite (agree_gen SS WF fuel t_id j eq_refl C).
+    destruct fuel; reflexivity.
+  - right. unfold fallback_validate. rewrite (agree_gen SS WF fuel (TOpt t_id) j eq_refl C).
+    destruct fuel as [|[|f]]; try reflexivity; simpl; destruct j; reflexivity.
+Qed.
+
+Lemma id_type_preserved SS : wf_schemas SS = true ->
+  forall fuel j, conforms SS fuel t_id j = true ->
+  fallback_validate SS fuel t_id j = Some (VJ j)
+  /\ ref_validate SS fuel t_id j = VJ j
+  /\ dump_by_alias SS (VJ j) = j
+  /\ ((exists z, j = JInt z) \/ (exists s, j = JStr s)).
+Proof.
+  intros WF fuel j C.
+  destruct fuel as [|f]; [discriminate|].
+  assert (R : ref_validate SS (S f) t_id j = VJ j) by reflexivity.
+  pose proof (agree_gen SS WF (S f) t_id j eq_refl C) as A. rewrite R in A.
+  unfold conforms in C. simpl in C. destruct f as [|f]; [discriminate|]. simpl in C.
+  repeat split; auto.
+  destruct j; try discriminate; eauto.
+Qed.
+
+Lemma variant_preserved SS : wf_schemas SS = true ->
+  forall fuel ts j, forallb is_model_ty ts = true -> conforms SS fuel (TUnion ts) j = true ->
+  exists n fs, find (fun t' => negb (quick_reject SS t' j)) ts = Some (TModel n)
+               /\ fallback_validate SS fuel (TUnion ts) j = Some (VModel n fs)
+               /\ ref_validate SS fuel (TUnion ts) j = VModel n fs.
+Proof.
+  intros WF fuel ts j M C.
+  assert (W : wf_ty (TUnion ts) = true) by (simpl; rewrite M; reflexivity).
+  pose proof (agree_gen SS WF fuel (TUnion ts) j W C) as A.
+  unfold fallback_validate. rewrite A. clear A.
+  destruct fuel as [|f]; [discriminate|].
+  unfold conforms in C. simpl in C. simpl. rewrite M in *.
+  destruct (find (fun t' => negb (quick_reject SS t' j)) ts) as [t'|] eqn:F; try discriminate.
+  destruct (find_some_split _ _ _ F) as (l1 & l2 & E & _ & _).
+  rewrite forallb_forall in M.
+  assert (Mt : is_model_ty t' = true) by (apply M; rewrite E; apply in_or_app; right; left; reflexivity).
+  destruct t'; try discriminate.
+  destruct f as [|f]; [discriminate|]. simpl in C. simpl.
+  destruct (find_schema n SS) as [s|]; try discriminate. destruct j; try discriminate.
+  eexists. eexists. repeat split.
+Qed.
+
+(** * Invariants: which back end enforces what *)
+Fixpoint has_range (t : ty) : bool :=
+  match t with
+  | TFloatRange _ _ => true
+  | TOpt t' | TList t' | TDict t' => has_range t'
+  | TUnion ts => existsb has_range ts
+  | _ => false
+  end.
+
+Definition invariants_symmetric (SS : list schema) : bool :=
+  forallb (fun s => (match s_hook s with HNone => true | _ => match s_hook_kind s with KModelPostInit => true | KPostInit => false end end)
+                    && negb (existsb (fun fd => has_range (f_ty fd)) (s_fields s))) SS.
+
+Lemma model_post_init_both s pi : s_hook_kind s = KModelPostInit -> hook_runs pi s = true.
+Proof. unfold hook_runs. intros ->. reflexivity. Qed.
